@@ -135,6 +135,22 @@ def run_case(c):
                         m3.eval()
                         t["second_outputs_equal"] = [out_bits(m3(x)) for x in probes] == ref_out
                         t["second_state_equal"] = sd_digest(m3.state_dict()) == ref
+                    # a second checkpoint loaded into the SAME target: the first state_dict (and the model it came from) must not
+                    # be written through - a load may share storage with what it was given, a later load must not modify it
+                    if how == "same" and c.get("second_load", True):
+                        first = loaded[sname]
+                        d_first = sd_digest(first)
+                        m4 = fresh(c, "same")
+                        m4.load_state_dict(dict(first))
+                        other = fresh(dict(c, seed=c["seed"] + 1234), "same")
+                        if c["freeze"]:
+                            freeze(other)
+                        try:
+                            m4.load_state_dict(other.state_dict())
+                            t["first_state_dict_unchanged"] = sd_digest(first) == d_first
+                            t["saved_model_unchanged"] = [out_bits(model(x)) for x in probes] == ref_out and sd_digest(model.state_dict()) == ref
+                        except Exception as ex2:  # noqa: BLE001
+                            t["second_load_exn"] = type(ex2).__name__ + ": " + str(ex2)[:120]
                     tg[key] = t
                 except Exception as ex:  # noqa: BLE001
                     import traceback
@@ -164,6 +180,11 @@ def run_case(c):
 
 def main():
     payload = json.loads(sys.stdin.read())
+    if payload.get("prelude", True):
+        import os as _os
+        sys.path.insert(0, _os.path.dirname(_os.path.abspath(__file__)))
+        from prelude import run_prelude
+        run_prelude()
     out = []
     for c in payload["cases"]:
         try:
